@@ -11,7 +11,7 @@ W(s) == /\ nw < MaxW /\ nw' = nw + 1 /\ written' = written \cup {nw + 1}
         /\ dropped' = dropped \cup (IF (nw + 1) \in (Ids(queue'[0]) \cup Ids(queue'[1]) \cup Ids(stack'[0]) \cup Ids(stack'[1])) THEN {} ELSE {nw + 1})
         /\ UNCHANGED got
 DN(s, n) == dropN[s] = 0 /\ n > 0 /\ DropNext(s, n) /\ UNCHANGED <<nw, written, dropped, got>>
-RN(s, n) == reorderN[s] = 0 /\ n > 0 /\ ReorderNext(s, n) /\ UNCHANGED <<nw, written, dropped, got>>
+RN(s, n) == reorderN[s] # n /\ ReorderNext(s, n) /\ UNCHANGED <<nw, written, dropped, got>>
 F(s, f) == filter[s] # f /\ SetFilter(s, f) /\ UNCHANGED <<nw, written, dropped, got>>
 DA(s, off, n) == /\ off + 1 <= Len(queue[s]) /\ DropAt(s, off, n)
                  /\ dropped' = dropped \cup (Ids(queue[s]) \ Ids(queue'[s])) /\ UNCHANGED <<nw, written, got>>
@@ -22,7 +22,8 @@ Tick == /\ (queue[0] # <<>> \/ queue[1] # <<>>)
         /\ got' = [r \in Sides |-> IF queue[1 - r] = <<>> THEN got[r] ELSE Append(got[r], Head(queue[1 - r]).id)]
         /\ UNCHANGED <<stack, dropN, reorderN, filter, nw, written, dropped>>
 Next == \/ \E s \in Sides : W(s) \/ RQ(s)
-        \/ \E s \in Sides, n \in Ns : DN(s, n) \/ RN(s, n)
+        \/ \E s \in Sides, n \in Ns : DN(s, n)
+        \/ \E s \in Sides, n \in Ns \cup {0} : RN(s, n)
         \/ \E s \in Sides, f \in {"none", "odd"} : F(s, f)
         \/ \E s \in Sides, off \in {0, 1}, n \in {1, 2} : DA(s, off, n)
         \/ Tick
